@@ -278,6 +278,8 @@ def run(cx, rep):
                 continue
             spreads = [p_ for p_ in o["properties"] if p_["type"] == "SpreadElement"]
             keys = {tsast.prop_key(p_["key"]) for p_ in o["properties"] if p_["type"] == "KeyValueProperty"}
+            # (a shorthand member `{ ...err, path }` - benign b115 - is an Identifier node among the properties)
+            keys |= {p_["value"] for p_ in o["properties"] if p_["type"] == "Identifier"}
             if spreads and "path" in keys:
                 n_rebase += 1
                 rep.ob("C12.5", "%s/rebase" % owner, "errors" not in keys,
